@@ -155,7 +155,7 @@ def check_salt(ctx, im, s):
                 ctx.violation("salt-altered", dict(text=text, salt=s, uid=uid, expected=want, got=out,
                                                    hashed_key=probe.last_key), mechanism="C05/salt-altered")
                 return
-            if probe.calls and probe.last_key != s + str(uid):
+            if probe.calls and isinstance(probe.last_key, str) and probe.last_key != s + str(uid):
                 ctx.violation("salt-altered-in-key", dict(text=text, salt=s, uid=uid, hashed_key=probe.last_key),
                               mechanism="C05/salt-altered")
                 return
